@@ -7,7 +7,17 @@ serf/serf.go and serf/delegate.go: the decisive statements, guards and statement
 canonically, plus a few derived booleans / numbers.  Every theorem here is named `gen_…`:
 
 * `gen_…_shape`  : the generated definition is literally what the model was written against
-                   (an edit of the Go code changes the Gen file and the `rfl` no longer holds);
+                   (an edit of the Go code changes the Gen file and the `rfl` no longer holds).
+                   The extractor NORMALISES every function first, so the literals are in
+                   canonical names — receiver `recv`, parameters `p0,p1,…`, other variables
+                   `v0,v1,…` in order of definition — with literal constants resolved,
+                   single-assignment pure locals inlined, `a > b` written `b < a`, no `else`
+                   after a returning branch, `xs[i]` of a range loop written as the loop's value
+                   variable.  A renaming or one of these respellings does not change the Gen
+                   file; the original Go is quoted in a `-- Go:` comment next to each literal;
+* `gen_removeOld_semantics` : `removeOldMember` is not pinned as text at all: the extractor
+                   emits a semantic summary (search predicate, FIRST match, removal statements),
+                   `removeOldSem` interprets it and is proved equal to the model for all inputs;
 * the others      : connect the generated fact to the corresponding parameter of the model
                    (strict vs non-strict comparison, `+ 1`, list clean-up, statement order …) and,
                    where the shape is DECISIVE, exhibit by `decide` what the model would do with
@@ -24,33 +34,43 @@ open SerfModel SerfModel.Node SerfModel.Gen.NodeShapes
 /-! ## 1. `reap` / `handleReap` -/
 
 theorem gen_reap_header_shape :
-    reapInit = "n := len(old)" ∧ reapForInit = "i := 0" ∧ reapCond = "i < n" ∧ reapPost = "i++" ∧
-    reapAfterLoop = ["return old"] := ⟨rfl, rfl, rfl, rfl, rfl⟩
+    -- Go: func (s *Serf) reap(old []*memberState, now time.Time, timeout time.Duration)   [old=p0 now=p1 timeout=p2]
+    -- Go: n := len(old); for i := 0; i < n; i++ { … }; return old                        [n=v0 i=v1]
+    reapInit = "v0 := len(p0)" ∧ reapForInit = "v1 := 0" ∧ reapCond = "v1 < v0" ∧ reapPost = "v1++" ∧
+    reapAfterLoop = ["return p0"] ∧
+    -- the bound is the hand-maintained counter: `n := len(old)` before the loop, one `n--` after the shrink
+    reapBoundTracksShrink = true := ⟨rfl, rfl, rfl, rfl, rfl, rfl⟩
 
 theorem gen_reap_keep_guard_shape :
-    reapKeepGuard = "now.Sub(m.leaveTime) <= memberTimeout" ∧ reapKeepsAtEquality = true := ⟨rfl, rfl⟩
+    -- Go: if now.Sub(m.leaveTime) <= memberTimeout { continue }                           [m=v2 memberTimeout=v3]
+    reapKeepGuard = "p1.Sub(v2.leaveTime) <= v3" ∧ reapKeepsAtEquality = true := ⟨rfl, rfl⟩
 
 theorem gen_reap_pre_guard_shape :
     reapPreGuardStmts = [
-      "m := old[i]",
-      "memberTimeout := timeout",
-      "if s.config.ReconnectTimeoutOverride != nil { memberTimeout = s.config.ReconnectTimeoutOverride.ReconnectTimeout(&m.Member, memberTimeout) }"] ∧
+      -- Go: m := old[i]
+      "v2 := p0[v1]",
+      -- Go: memberTimeout := timeout
+      "v3 := p2",
+      -- Go: if s.config.ReconnectTimeoutOverride != nil { memberTimeout = s.config.ReconnectTimeoutOverride.ReconnectTimeout(&m.Member, memberTimeout) }
+      "if recv.config.ReconnectTimeoutOverride != nil { v3 = recv.config.ReconnectTimeoutOverride.ReconnectTimeout(&v2.Member, v3) }"] ∧
     reapOverrideApplied = true := ⟨rfl, rfl⟩
 
 theorem gen_reap_delete_shape :
     reapDeleteStmts = [
-      "old[i], old[n-1] = old[n-1], nil",
-      "old = old[:n-1]",
-      "n--",
-      "i--",
-      "s.eraseNode(m)"] ∧
+      -- Go: old[i], old[n-1] = old[n-1], nil; old = old[:n-1]; n--; i--; s.eraseNode(m)
+      "p0[v1], p0[v0-1] = p0[v0-1], nil",
+      "p0 = p0[:v0-1]",
+      "v0--",
+      "v1--",
+      "recv.eraseNode(v2)"] ∧
     reapRechecksSlot = true := ⟨rfl, rfl⟩
 
 theorem gen_reap_calls_shape :
     reapCalls = [
-      "s.failedMembers = s.reap(s.failedMembers, now, s.config.ReconnectTimeout)",
-      "s.leftMembers = s.reap(s.leftMembers, now, s.config.TombstoneTimeout)",
-      "reapIntents(s.recentIntents, now, s.config.RecentIntentTimeout)"] := rfl
+      -- Go (handleReap): now := time.Now()  [now=v0];  s.failedMembers = s.reap(s.failedMembers, now, s.config.ReconnectTimeout); …
+      "recv.failedMembers = recv.reap(recv.failedMembers, v0, recv.config.ReconnectTimeout)",
+      "recv.leftMembers = recv.reap(recv.leftMembers, v0, recv.config.TombstoneTimeout)",
+      "reapIntents(recv.recentIntents, v0, recv.config.RecentIntentTimeout)"] := rfl
 
 /-- Go keeps an entry when `now.Sub(leaveTime) <= memberTimeout` ⇔ the model expires it on the
 strict `>`; the timeout compared with is the overridden one (`ov x timeout`). -/
@@ -109,17 +129,21 @@ theorem gen_reap_delete_matches_model (exp : Name → Bool) (fuel i : Nat) (old 
 
 /-- `old[i], old[n-1] = old[n-1], nil; old = old[:n-1]` is `swapRemove` -/
 theorem gen_reap_swap_example :
-    reapDeleteStmts.take 2 = ["old[i], old[n-1] = old[n-1], nil", "old = old[:n-1]"] ∧
+    reapDeleteStmts.take 2 = ["p0[v1], p0[v0-1] = p0[v0-1], nil", "p0 = p0[:v0-1]"] ∧
     swapRemove ["a", "b", "c", "d"] 1 = ["a", "d", "c"] ∧ swapRemove ["a"] 0 = [] ∧
     swapRemove ["a", "b"] 1 = ["a"] := by decide
 
 /-! ## 2. `handleNodeLeaveIntent` / `handlePrune` -/
 
 theorem gen_leave_guards_shape :
-    leaveStaleGuard = "leaveMsg.LTime <= member.statusLTime" ∧
-    leaveRefuteGuard = "leaveMsg.Node == s.config.NodeName && state == SerfAlive" ∧
-    leaveRefuteCall = "go s.broadcastJoin(s.clock.Time())" ∧
-    leaveRefuteStmts = ["go s.broadcastJoin(s.clock.Time())", "return false"] := ⟨rfl, rfl, rfl, rfl⟩
+    -- Go: func (s *Serf) handleNodeLeaveIntent(leaveMsg *messageLeave) bool      [leaveMsg=p0 state=v0 member=v1 ok=v2]
+    -- Go: leaveMsg.LTime <= member.statusLTime
+    leaveStaleGuard = "p0.LTime <= v1.statusLTime" ∧
+    -- Go: leaveMsg.Node == s.config.NodeName && state == SerfAlive
+    leaveRefuteGuard = "p0.Node == recv.config.NodeName && v0 == SerfAlive" ∧
+    -- Go: go s.broadcastJoin(s.clock.Time()); return false
+    leaveRefuteCall = "go recv.broadcastJoin(recv.clock.Time())" ∧
+    leaveRefuteStmts = ["go recv.broadcastJoin(recv.clock.Time())", "return false"] := ⟨rfl, rfl, rfl, rfl⟩
 
 theorem gen_leave_order_shape :
     leaveWitnessFirst = true ∧ leaveSetsTimeBeforeSwitch = true ∧ leaveGuardsBeforeSetTime = true ∧
@@ -127,41 +151,60 @@ theorem gen_leave_order_shape :
 
 theorem gen_leave_skeleton_shape :
     leaveSkeleton = [
-      "state := s.State()",
-      "s.clock.Witness(leaveMsg.LTime)",
-      "s.memberLock.Lock()",
-      "defer s.memberLock.Unlock()",
-      "member, ok := s.members[leaveMsg.Node]",
-      "if !ok { return upsertIntent(s.recentIntents, leaveMsg.Node, messageLeaveType, leaveMsg.LTime, time.Now) }",
-      "if leaveMsg.LTime <= member.statusLTime { return false }",
-      "if leaveMsg.Node == s.config.NodeName && state == SerfAlive { go s.broadcastJoin(s.clock.Time()); return false }",
-      "member.statusLTime = leaveMsg.LTime",
-      "switch member.Status"] := rfl
+      -- Go: state := s.State()
+      "v0 := recv.State()",
+      -- Go: s.clock.Witness(leaveMsg.LTime)
+      "recv.clock.Witness(p0.LTime)",
+      "recv.memberLock.Lock()",
+      "defer recv.memberLock.Unlock()",
+      -- Go: member, ok := s.members[leaveMsg.Node]
+      "v1, v2 := recv.members[p0.Node]",
+      -- Go: if !ok { return upsertIntent(s.recentIntents, leaveMsg.Node, messageLeaveType, leaveMsg.LTime, time.Now) }
+      "if !v2 { return upsertIntent(recv.recentIntents, p0.Node, messageLeaveType, p0.LTime, time.Now) }",
+      -- Go: if leaveMsg.LTime <= member.statusLTime { return false }
+      "if p0.LTime <= v1.statusLTime { return false }",
+      -- Go: if leaveMsg.Node == s.config.NodeName && state == SerfAlive { go s.broadcastJoin(s.clock.Time()); return false }
+      "if p0.Node == recv.config.NodeName && v0 == SerfAlive { go recv.broadcastJoin(recv.clock.Time()); return false }",
+      -- Go: member.statusLTime = leaveMsg.LTime
+      "v1.statusLTime = p0.LTime",
+      -- Go: switch member.Status
+      "switch v1.Status"] := rfl
 
 theorem gen_leave_case_alive_shape :
     leaveCaseAlive = [
-      "member.Status = StatusLeaving",
-      "if leaveMsg.Prune { s.handlePrune(member) }",
+      -- Go: member.Status = StatusLeaving; if leaveMsg.Prune { s.handlePrune(member) }; return true
+      "v1.Status = StatusLeaving",
+      "if p0.Prune { recv.handlePrune(v1) }",
       "return true"] := rfl
 
 theorem gen_leave_case_failed_shape :
     leaveCaseFailed = [
-      "member.Status = StatusLeft",
-      "s.failedMembers = removeOldMember(s.failedMembers, member.Name)",
-      "s.leftMembers = append(s.leftMembers, member)",
-      "if s.config.EventCh != nil { s.config.EventCh <- MemberEvent{Type: EventMemberLeave, Members: []Member{member.Member}} }",
-      "if leaveMsg.Prune { s.handlePrune(member) }",
+      -- Go: member.Status = StatusLeft
+      "v1.Status = StatusLeft",
+      -- Go: s.failedMembers = removeOldMember(s.failedMembers, member.Name)
+      "recv.failedMembers = removeOldMember(recv.failedMembers, v1.Name)",
+      -- Go: s.leftMembers = append(s.leftMembers, member)
+      "recv.leftMembers = append(recv.leftMembers, v1)",
+      -- Go: if s.config.EventCh != nil { s.config.EventCh <- MemberEvent{Type: EventMemberLeave, Members: []Member{member.Member}} }
+      "if recv.config.EventCh != nil { recv.config.EventCh <- MemberEvent{Type: EventMemberLeave, Members: []Member{v1.Member}} }",
+      -- Go: if leaveMsg.Prune { s.handlePrune(member) }
+      "if p0.Prune { recv.handlePrune(v1) }",
       "return true"] := rfl
 
 theorem gen_leave_case_leaving_left_shape :
-    leaveCaseLeavingLeft = ["if leaveMsg.Prune { s.handlePrune(member) }", "return true"] ∧
+    -- Go: case StatusLeaving, StatusLeft: if leaveMsg.Prune { s.handlePrune(member) }; return true
+    leaveCaseLeavingLeft = ["if p0.Prune { recv.handlePrune(v1) }", "return true"] ∧
     leaveCaseDefault = ["return false"] := ⟨rfl, rfl⟩
 
 theorem gen_handlePrune_shape :
     handlePruneStmts = [
-      "if member.Status == StatusLeaving { time.Sleep(s.config.BroadcastTimeout + s.config.LeavePropagateDelay) }",
-      "if member.Status == StatusLeaving || member.Status == StatusLeft { s.leftMembers = removeOldMember(s.leftMembers, member.Name) }",
-      "s.eraseNode(member)"] := rfl
+      -- Go: func (s *Serf) handlePrune(member *memberState)                                    [member=p0]
+      -- Go: if member.Status == StatusLeaving { time.Sleep(s.config.BroadcastTimeout + s.config.LeavePropagateDelay) }
+      "if p0.Status == StatusLeaving { time.Sleep(recv.config.BroadcastTimeout + recv.config.LeavePropagateDelay) }",
+      -- Go: if member.Status == StatusLeaving || member.Status == StatusLeft { s.leftMembers = removeOldMember(s.leftMembers, member.Name) }
+      "if p0.Status == StatusLeaving || p0.Status == StatusLeft { recv.leftMembers = removeOldMember(recv.leftMembers, p0.Name) }",
+      -- Go: s.eraseNode(member)
+      "recv.eraseNode(p0)"] := rfl
 
 /-- the clock witnesses the message time first, whatever happens afterwards (unknown member) -/
 theorem gen_leave_witness_first_matches_model (n : Node) (x : Name) (lt : Nat) (p : Bool) (w : Nat)
@@ -175,14 +218,14 @@ theorem gen_leave_witness_first_matches_model (n : Node) (x : Name) (lt : Nat) (
 non-strict `<=` in Go, `lt ≤ m.ltime` in the model -/
 theorem gen_leave_stale_guard_matches_model (n : Node) (x : Name) (m : Member) (lt : Nat) (p : Bool) (w : Nat)
     (h : alookup n.members x = some m) (hle : lt ≤ m.ltime) :
-    leaveStaleGuard = "leaveMsg.LTime <= member.statusLTime" ∧
+    leaveStaleGuard = "p0.LTime <= v1.statusLTime" ∧
     handleLeaveIntent n x lt p w = ({ n with clock := witness n.clock lt }, {}) := by
   refine ⟨rfl, ?_⟩
   simp [handleLeaveIntent, h, hle]
 
 /-- an equal time IS stale (the guard is `<=`, not `<`): a second copy is not rebroadcast -/
 theorem gen_leave_stale_at_equality_example :
-    leaveStaleGuard = "leaveMsg.LTime <= member.statusLTime" ∧
+    leaveStaleGuard = "p0.LTime <= v1.statusLTime" ∧
     (handleLeaveIntent { name := "a", members := [("a", ⟨.alive, 0, 0⟩), ("b", ⟨.leaving, 4, 0⟩)] } "b" 4 false 0).2.rebroadcast = false ∧
     (handleLeaveIntent { name := "a", members := [("a", ⟨.alive, 0, 0⟩), ("b", ⟨.leaving, 4, 0⟩)] } "b" 5 false 0).2.rebroadcast = true := by
   decide
@@ -191,7 +234,7 @@ theorem gen_leave_stale_at_equality_example :
 only AFTER this guard), the join is spawned with the clock value of that moment, no rebroadcast -/
 theorem gen_leave_refute_matches_model (n : Node) (m : Member) (lt : Nat) (p : Bool) (w : Nat)
     (h : alookup n.members n.name = some m) (hlt : m.ltime < lt) (hl : n.life = .alive) :
-    leaveGuardsBeforeSetTime = true ∧ leaveRefuteCall = "go s.broadcastJoin(s.clock.Time())" ∧
+    leaveGuardsBeforeSetTime = true ∧ leaveRefuteCall = "go recv.broadcastJoin(recv.clock.Time())" ∧
     handleLeaveIntent n n.name lt p w =
       ({ n with clock := witness n.clock lt, pending := n.pending ++ [witness n.clock lt] }, {}) := by
   refine ⟨rfl, rfl, ?_⟩
@@ -225,7 +268,7 @@ theorem gen_prune_order_decisive :
 /-- inside `handlePrune` the left-list removal precedes `eraseNode`, and it is conditional on the
 status Leaving/Left exactly as in the model -/
 theorem gen_handlePrune_matches_model (n : Node) (x : Name) :
-    handlePruneStmts.idxOf "s.eraseNode(member)" = 2 ∧
+    handlePruneStmts.idxOf "recv.eraseNode(p0)" = 2 ∧
     (statusOf n x = some .leaving ∨ statusOf n x = some .left →
       (handlePrune n x).1 = eraseNode { n with left := removeOld n.left x } x) ∧
     (statusOf n x = some .failed ∨ statusOf n x = some .alive ∨ statusOf n x = none →
@@ -250,30 +293,41 @@ theorem gen_leave_case_failed_matches_model (n : Node) (x : Name) (m : Member) (
 /-! ## 3. `handleNodeJoin`, `handleNodeLeave`, `removeOldMember`, `upsertIntent`, `handleNodeJoinIntent` -/
 
 theorem gen_join_cleanup_shape :
-    joinCleanupGuard = "oldStatus == StatusFailed || oldStatus == StatusLeft" ∧
+    -- Go: func (s *Serf) handleNodeJoin(n *memberlist.Node)      [n=p0 oldStatus=v0 member=v1 ok=v2 deadTime=v3]
+    -- Go: if oldStatus == StatusFailed || oldStatus == StatusLeft { … }   (the two tests in textual order)
+    joinCleanupGuard = "v0 == StatusFailed || v0 == StatusLeft" ∧
     joinCleanupStmts = [
-      "s.failedMembers = removeOldMember(s.failedMembers, member.Name)",
-      "s.leftMembers = removeOldMember(s.leftMembers, member.Name)"] := ⟨rfl, rfl⟩
+      -- Go: s.failedMembers = removeOldMember(s.failedMembers, member.Name)
+      "recv.failedMembers = removeOldMember(recv.failedMembers, v1.Name)",
+      -- Go: s.leftMembers = removeOldMember(s.leftMembers, member.Name)
+      "recv.leftMembers = removeOldMember(recv.leftMembers, v1.Name)"] := ⟨rfl, rfl⟩
 
 theorem gen_join_intent_lookups_shape :
     joinIntentLookups = [
-      "if join, ok := recentIntent(s.recentIntents, n.Name, messageJoinType); ok { member.statusLTime = join }",
-      "if leave, ok := recentIntent(s.recentIntents, n.Name, messageLeaveType); ok { member.Status = StatusLeaving; member.statusLTime = leave }"] := rfl
+      -- (the `if !ok { first seen } else { known }` of the source is oriented `if ok { known } else { first seen }`,
+      --  so the variables of the known branch are numbered first: deadTime=v3, then join=v4 ok=v5 leave=v6 ok=v7)
+      -- Go: if join, ok := recentIntent(s.recentIntents, n.Name, messageJoinType); ok { member.statusLTime = join }
+      "if v4, v5 := recentIntent(recv.recentIntents, p0.Name, messageJoinType); v5 { v1.statusLTime = v4 }",
+      -- Go: if leave, ok := recentIntent(s.recentIntents, n.Name, messageLeaveType); ok { member.Status = StatusLeaving; member.statusLTime = leave }
+      "if v6, v7 := recentIntent(recv.recentIntents, p0.Name, messageLeaveType); v7 { v1.Status = StatusLeaving; v1.statusLTime = v6 }"] := rfl
 
 theorem gen_join_known_shape :
     joinKnownStmts = [
-      "oldStatus = member.Status",
-      "deadTime := time.Since(member.leaveTime)",
-      "member.Status = StatusAlive",
-      "member.leaveTime = time.Time{}",
-      "member.Addr = n.Addr",
-      "member.Port = n.Port",
-      "member.Tags = s.decodeTags(n.Meta)"] := rfl
+      -- Go: oldStatus = member.Status; deadTime := time.Since(member.leaveTime)
+      "v0 = v1.Status",
+      "v3 := time.Since(v1.leaveTime)",
+      -- Go: member.Status = StatusAlive; member.leaveTime = time.Time{}
+      "v1.Status = StatusAlive",
+      "v1.leaveTime = time.Time{}",
+      -- Go: member.Addr = n.Addr; member.Port = n.Port; member.Tags = s.decodeTags(n.Meta)
+      "v1.Addr = p0.Addr",
+      "v1.Port = p0.Port",
+      "v1.Tags = recv.decodeTags(p0.Meta)"] := rfl
 
 /-- BOTH lists are cleaned when the old status was Failed OR Left -/
 theorem gen_join_cleanup_matches_model (n : Node) (x : Name) (m : Member)
     (h : alookup n.members x = some m) (hs : m.status = .failed ∨ m.status = .left) :
-    joinCleanupGuard = "oldStatus == StatusFailed || oldStatus == StatusLeft" ∧ joinCleanupStmts.length = 2 ∧
+    joinCleanupGuard = "v0 == StatusFailed || v0 == StatusLeft" ∧ joinCleanupStmts.length = 2 ∧
     (handleNodeJoin n x).1.failed = removeOld n.failed x ∧
     (handleNodeJoin n x).1.left = removeOld n.left x ∧
     (handleNodeJoin n x).1.members = ainsert n.members x { m with status := .alive, leaveTime := 0 } := by
@@ -282,7 +336,7 @@ theorem gen_join_cleanup_matches_model (n : Node) (x : Name) (m : Member)
 /-- … and neither list is touched otherwise -/
 theorem gen_join_no_cleanup_matches_model (n : Node) (x : Name) (m : Member)
     (h : alookup n.members x = some m) (hs : m.status = .alive ∨ m.status = .leaving) :
-    joinCleanupGuard = "oldStatus == StatusFailed || oldStatus == StatusLeft" ∧
+    joinCleanupGuard = "v0 == StatusFailed || v0 == StatusLeft" ∧
     (handleNodeJoin n x).1.failed = n.failed ∧ (handleNodeJoin n x).1.left = n.left := by
   refine ⟨rfl, ?_, ?_⟩ <;> rcases hs with hs | hs <;> simp [handleNodeJoin, h, hs]
 
@@ -301,7 +355,7 @@ def demoLeftStale : Node :=
   { name := "a", members := [("a", ⟨.alive, 0, 0⟩), ("b", ⟨.left, 2, 5⟩)], failed := ["b"], left := ["b"] }
 
 theorem gen_join_cleanup_decisive :
-    joinCleanupGuard = "oldStatus == StatusFailed || oldStatus == StatusLeft" ∧ joinCleanupStmts.length = 2 ∧
+    joinCleanupGuard = "v0 == StatusFailed || v0 == StatusLeft" ∧ joinCleanupStmts.length = 2 ∧
     (handleNodeJoin demoLeftStale "b").1.failed = [] ∧ (handleNodeJoin demoLeftStale "b").1.left = [] ∧
     (joinCleansOwnListOnly demoLeftStale "b").failed = ["b"] ∧
     statusOf (joinCleansOwnListOnly demoLeftStale "b") "b" = some .alive ∧
@@ -320,15 +374,18 @@ theorem gen_join_intent_lookups_match_model (n : Node) (x : Name) (i : Intent)
   simp [handleNodeJoin, h, hi]
 
 theorem gen_nodeLeave_shape :
-    nodeLeaveSwitchTag = "member.Status" ∧
+    -- Go: func (s *Serf) handleNodeLeave(n *memberlist.Node)   [n=p0 member=v0 ok=v1];  switch member.Status
+    nodeLeaveSwitchTag = "v0.Status" ∧
     nodeLeaveCaseLeaving = [
-      "member.Status = StatusLeft",
-      "member.leaveTime = time.Now()",
-      "s.leftMembers = append(s.leftMembers, member)"] ∧
+      -- Go: member.Status = StatusLeft; member.leaveTime = time.Now(); s.leftMembers = append(s.leftMembers, member)
+      "v0.Status = StatusLeft",
+      "v0.leaveTime = time.Now()",
+      "recv.leftMembers = append(recv.leftMembers, v0)"] ∧
     nodeLeaveCaseAlive = [
-      "member.Status = StatusFailed",
-      "member.leaveTime = time.Now()",
-      "s.failedMembers = append(s.failedMembers, member)"] ∧
+      -- Go: member.Status = StatusFailed; member.leaveTime = time.Now(); s.failedMembers = append(s.failedMembers, member)
+      "v0.Status = StatusFailed",
+      "v0.leaveTime = time.Now()",
+      "recv.failedMembers = append(recv.failedMembers, v0)"] ∧
     nodeLeaveCaseDefault = ["return"] := ⟨rfl, rfl, rfl, rfl⟩
 
 /-- Leaving → Left on the left list, Alive → Failed on the failed list, anything else: nothing -/
@@ -343,27 +400,87 @@ theorem gen_nodeLeave_matches_model (n : Node) (x : Name) (m : Member) (at_ : Na
   · intro hs; simp [handleNodeLeave, h, hs]
   · rintro (hs | hs) <;> simp [handleNodeLeave, h, hs]
 
+/-- `removeOldMember` is extracted as a SEMANTIC summary, not as text: which slice is searched,
+with which predicate on an element `elem`, that the FIRST match (ascending index) is taken, what
+is done with its index `idx`, and what happens without a match.  The extractor derives the same
+summary from the manual loop
+`for i, m := range old { if m.Name == name { n := len(old); old[i], old[n-1] = old[n-1], nil; return old[:n-1] } }; return old`
+and from `i := slices.IndexFunc(old, func(m *memberState) bool { return m.Name == name }); if i < 0 { return old }; …`
+(`old` = p0, `name` = p1; `n := len(old)` / `last := len(old) - 1` are inlined). -/
 theorem gen_removeOldMember_shape :
-    removeOldMemberStmts = [
-      "for i, m := range old { if m.Name == name { n := len(old); old[i], old[n-1] = old[n-1], nil; return old[:n-1] } }",
-      "return old"] := rfl
+    removeOldSearchOver = "p0" ∧
+    -- Go: m.Name == name
+    removeOldSearchPred = "elem.Name == p1" ∧
+    removeOldSearchFirst = true ∧
+    removeOldOnMatch = [
+      -- Go: n := len(old); old[i], old[n-1] = old[n-1], nil
+      "p0[idx], p0[len(p0)-1] = p0[len(p0)-1], nil",
+      -- Go: return old[:n-1]
+      "return p0[:len(p0)-1]"] ∧
+    -- Go: return old
+    removeOldNoMatch = "return p0" := ⟨rfl, rfl, rfl, rfl, rfl⟩
+
+/-- The MEANING of that summary on the model's lists of names (an element is identified by its
+`Name`, so `elem.Name == p1` is `· = x`): search the first index whose element satisfies the
+predicate (`removeOldSearchFirst`); none: `return p0`, the list unchanged (`removeOldNoMatch`);
+`some idx`: `p0[idx], p0[len(p0)-1] = p0[len(p0)-1], nil; return p0[:len(p0)-1]`, i.e. slot
+`idx` receives the last element and the last slot is cut (`removeOldOnMatch`) = `swapRemove`. -/
+def removeOldSem (l : List Name) (x : Name) : List Name :=
+  match l.findIdx? (· = x) with
+  | none => l
+  | some i => swapRemove l i
+
+/-- the interpretation of the summary IS the model's `removeOld`, for every list and name -/
+theorem gen_removeOld_semantics : ∀ (l : List Name) (x : Name), removeOldSem l x = removeOld l x := by
+  intro l x
+  induction l with
+  | nil => simp [removeOldSem, removeOld]
+  | cons y ys ih =>
+    unfold removeOldSem at ih ⊢
+    by_cases h : y = x
+    · simp [List.findIdx?_cons, h, removeOld, swapRemove]
+    · cases hf : ys.findIdx? (· = x) with
+      | none => simp [List.findIdx?_cons, h, hf, removeOld] at ih ⊢; exact ih
+      | some i => simp [List.findIdx?_cons, h, hf, removeOld, swapRemove] at ih ⊢; exact ih
+
+/-- the summary that `removeOldSem` interprets is the generated one, and so the generated code
+removes like the model -/
+theorem gen_removeOld_matches_model (l : List Name) (x : Name) :
+    removeOldSearchPred = "elem.Name == p1" ∧ removeOldSearchFirst = true ∧ removeOldOnMatch.length = 2 ∧
+    removeOldNoMatch = "return p0" ∧ removeOldSem l x = removeOld l x :=
+  ⟨rfl, rfl, rfl, rfl, gen_removeOld_semantics l x⟩
+
+/-- The FIRST match is decisive: removing the LAST match instead differs on a list with a duplicate. -/
+def removeOldLastSem (l : List Name) (x : Name) : List Name :=
+  match (l.reverse.findIdx? (· = x)) with
+  | none => l
+  | some j => swapRemove l (l.length - 1 - j)
+
+theorem gen_removeOld_first_decisive :
+    removeOldSearchFirst = true ∧
+    removeOldSem ["a", "b", "a", "c"] "a" = ["c", "b", "a"] ∧
+    removeOldLastSem ["a", "b", "a", "c"] "a" = ["a", "b", "c"] := by decide
 
 /-- first match overwritten by the last element, slice cut by one; no match: unchanged -/
 theorem gen_removeOldMember_example :
-    removeOldMemberStmts.length = 2 ∧
+    removeOldOnMatch.length = 2 ∧
     removeOld ["a", "b", "c", "d"] "b" = ["a", "d", "c"] ∧ removeOld ["a", "b"] "b" = ["a"] ∧
     removeOld ["a", "b", "a"] "a" = ["a", "b"] ∧ removeOld ["a", "b"] "z" = ["a", "b"] := by decide
 
 theorem gen_upsertIntent_shape :
-    upsertIntentGuard = "intent, ok := intents[node]; !ok || ltime > intent.LTime" ∧
+    -- Go: func upsertIntent(intents map[string]nodeIntent, node string, itype messageType, ltime LamportTime, stamper func() time.Time) bool
+    --     [intents=p0 node=p1 itype=p2 ltime=p3 stamper=p4 intent=v0 ok=v1]
+    -- Go: if intent, ok := intents[node]; !ok || ltime > intent.LTime          (`a > b` is written `b < a`)
+    upsertIntentGuard = "v0, v1 := p0[p1]; !v1 || v0.LTime < p3" ∧
     upsertIntentThen = [
-      "intents[node] = nodeIntent{Type: itype, WallTime: stamper(), LTime: ltime}",
+      -- Go: intents[node] = nodeIntent{Type: itype, WallTime: stamper(), LTime: ltime}
+      "p0[p1] = nodeIntent{Type: p2, WallTime: p4(), LTime: p3}",
       "return true"] ∧
     upsertIntentRest = ["return false"] := ⟨rfl, rfl, rfl⟩
 
-/-- `!ok || ltime > intent.LTime`, whatever the TYPE of the buffered intent -/
+/-- `!ok || ltime > intent.LTime` (printed `!v1 || v0.LTime < p3`), whatever the TYPE of the buffered intent -/
 theorem gen_upsertIntent_guard_matches_model (ints : List (Name × Intent)) (x : Name) (b : Bool) (lt w : Nat) :
-    upsertIntentGuard = "intent, ok := intents[node]; !ok || ltime > intent.LTime" ∧
+    upsertIntentGuard = "v0, v1 := p0[p1]; !v1 || v0.LTime < p3" ∧
     (upsertIntent ints x b lt w).2 =
       (match alookup ints x with
        | none => true
@@ -387,7 +504,7 @@ def upsertPerType (ints : List (Name × Intent)) (x : Name) (isLeave : Bool) (lt
   | none => (ainsert ints x ⟨isLeave, lt, wall⟩, true)
 
 theorem gen_upsertIntent_guard_decisive :
-    upsertIntentGuard = "intent, ok := intents[node]; !ok || ltime > intent.LTime" ∧
+    upsertIntentGuard = "v0, v1 := p0[p1]; !v1 || v0.LTime < p3" ∧
     -- a buffered join at time 5, then an OLDER leave at time 3
     upsertIntent [("b", ⟨false, 5, 0⟩)] "b" true 3 9 = ([("b", ⟨false, 5, 0⟩)], false) ∧
     upsertPerType [("b", ⟨false, 5, 0⟩)] "b" true 3 9 = ([("b", ⟨true, 3, 9⟩)], true) ∧
@@ -395,21 +512,29 @@ theorem gen_upsertIntent_guard_decisive :
     (upsertIntent [("b", ⟨true, 5, 0⟩)] "b" true 5 9).2 = false := by decide
 
 theorem gen_joinIntent_shape :
-    joinIntentStaleGuard = "joinMsg.LTime <= member.statusLTime" ∧
+    -- Go: func (s *Serf) handleNodeJoinIntent(joinMsg *messageJoin) bool        [joinMsg=p0 member=v0 ok=v1]
+    -- Go: joinMsg.LTime <= member.statusLTime
+    joinIntentStaleGuard = "p0.LTime <= v0.statusLTime" ∧
     joinIntentStmts = [
-      "s.clock.Witness(joinMsg.LTime)",
-      "s.memberLock.Lock()",
-      "defer s.memberLock.Unlock()",
-      "member, ok := s.members[joinMsg.Node]",
-      "if !ok { return upsertIntent(s.recentIntents, joinMsg.Node, messageJoinType, joinMsg.LTime, time.Now) }",
-      "if joinMsg.LTime <= member.statusLTime { return false }",
-      "member.statusLTime = joinMsg.LTime",
-      "if member.Status == StatusLeaving { member.Status = StatusAlive }",
+      -- Go: s.clock.Witness(joinMsg.LTime)
+      "recv.clock.Witness(p0.LTime)",
+      "recv.memberLock.Lock()",
+      "defer recv.memberLock.Unlock()",
+      -- Go: member, ok := s.members[joinMsg.Node]
+      "v0, v1 := recv.members[p0.Node]",
+      -- Go: if !ok { return upsertIntent(s.recentIntents, joinMsg.Node, messageJoinType, joinMsg.LTime, time.Now) }
+      "if !v1 { return upsertIntent(recv.recentIntents, p0.Node, messageJoinType, p0.LTime, time.Now) }",
+      -- Go: if joinMsg.LTime <= member.statusLTime { return false }
+      "if p0.LTime <= v0.statusLTime { return false }",
+      -- Go: member.statusLTime = joinMsg.LTime
+      "v0.statusLTime = p0.LTime",
+      -- Go: if member.Status == StatusLeaving { member.Status = StatusAlive }
+      "if v0.Status == StatusLeaving { v0.Status = StatusAlive }",
       "return true"] := ⟨rfl, rfl⟩
 
 theorem gen_joinIntent_matches_model (n : Node) (x : Name) (m : Member) (lt w : Nat)
     (h : alookup n.members x = some m) :
-    joinIntentStaleGuard = "joinMsg.LTime <= member.statusLTime" ∧
+    joinIntentStaleGuard = "p0.LTime <= v0.statusLTime" ∧
     (lt ≤ m.ltime → handleJoinIntent n x lt w = ({ n with clock := witness n.clock lt }, {})) ∧
     (m.ltime < lt → (handleJoinIntent n x lt w).2.rebroadcast = true ∧
       alookup (handleJoinIntent n x lt w).1.members x =
@@ -424,12 +549,14 @@ theorem gen_joinIntent_matches_model (n : Node) (x : Name) (m : Member) (lt w : 
 
 theorem gen_localState_shape :
     localStateStatusLoop = [
-      "for name, member := range d.serf.members",
-      "pp.StatusLTimes[name] = member.statusLTime"] ∧
+      -- Go (LocalState): for name, member := range d.serf.members { pp.StatusLTimes[name] = member.statusLTime }   [pp=v0 name=v1 member=v2]
+      "for v1, v2 := range recv.serf.members",
+      "v0.StatusLTimes[v1] = v2.statusLTime"] ∧
     localStateStatusLoopUnconditional = true ∧
     localStateLeftLoop = [
-      "for _, member := range d.serf.leftMembers",
-      "pp.LeftMembers = append(pp.LeftMembers, member.Name)"] ∧
+      -- Go: for _, member := range d.serf.leftMembers { pp.LeftMembers = append(pp.LeftMembers, member.Name) }   [member=v3]
+      "for _, v3 := range recv.serf.leftMembers",
+      "v0.LeftMembers = append(v0.LeftMembers, v3.Name)"] ∧
     localStateLeftLoopUnconditional = true := ⟨rfl, rfl, rfl, rfl⟩
 
 /-- every member (Left ones included) is reported with its status time, every left-list entry by name -/
@@ -460,26 +587,40 @@ theorem gen_localState_unconditional_decisive :
   decide
 
 theorem gen_merge_loops_shape :
-    mergeLeaveTimeExpr = "pp.StatusLTimes[name] + 1" ∧ mergeLeaveOffset = 1 ∧
+    -- Go (MergeRemoteState): [pp=v0 err=v1 leftMap=v2 leave=v3 name=v4 join=v5 name=v6 statusLTime=v7 ok=v8]
+    -- Go: pp.StatusLTimes[name] + 1     (a constant in place of the 1 would be resolved to its value)
+    mergeLeaveTimeExpr = "v0.StatusLTimes[v4] + 1" ∧ mergeLeaveOffset = 1 ∧
     mergeLeftLoopStmts = [
-      "for _, name := range pp.LeftMembers",
-      "leftMap[name] = struct{}{}",
-      "leave.LTime = pp.StatusLTimes[name] + 1",
-      "leave.Node = name",
-      "d.serf.handleNodeLeaveIntent(&leave)"] ∧
+      -- Go: for _, name := range pp.LeftMembers
+      "for _, v4 := range v0.LeftMembers",
+      -- Go: leftMap[name] = struct{}{}
+      "v2[v4] = struct{}{}",
+      -- Go: leave.LTime = pp.StatusLTimes[name] + 1
+      "v3.LTime = v0.StatusLTimes[v4] + 1",
+      -- Go: leave.Node = name
+      "v3.Node = v4",
+      -- Go: d.serf.handleNodeLeaveIntent(&leave)
+      "recv.serf.handleNodeLeaveIntent(&v3)"] ∧
     mergeJoinLoopStmts = [
-      "for name, statusLTime := range pp.StatusLTimes",
-      "if _, ok := leftMap[name]; ok { continue }",
-      "join.LTime = statusLTime",
-      "join.Node = name",
-      "d.serf.handleNodeJoinIntent(&join)"] := ⟨rfl, rfl, rfl, rfl⟩
+      -- Go: for name, statusLTime := range pp.StatusLTimes
+      "for v6, v7 := range v0.StatusLTimes",
+      -- Go: if _, ok := leftMap[name]; ok { continue }
+      "if _, v8 := v2[v6]; v8 { continue }",
+      -- Go: join.LTime = statusLTime; join.Node = name
+      "v5.LTime = v7",
+      "v5.Node = v6",
+      -- Go: d.serf.handleNodeJoinIntent(&join)
+      "recv.serf.handleNodeJoinIntent(&v5)"] := ⟨rfl, rfl, rfl, rfl⟩
 
 theorem gen_merge_order_shape :
     mergeLeftsBeforeJoins = true ∧ mergeIgnoresResults = true ∧ mergeWitnessBeforeLoops = true ∧
     mergeWitnessStmts = [
-      "if pp.LTime > 0 { d.serf.clock.Witness(pp.LTime - 1) }",
-      "if pp.EventLTime > 0 { d.serf.eventClock.Witness(pp.EventLTime - 1) }",
-      "if pp.QueryLTime > 0 { d.serf.queryClock.Witness(pp.QueryLTime - 1) }"] := ⟨rfl, rfl, rfl, rfl⟩
+      -- Go: if pp.LTime > 0 { d.serf.clock.Witness(pp.LTime - 1) }              (`a > 0` is written `0 < a`)
+      "if 0 < v0.LTime { recv.serf.clock.Witness(v0.LTime - 1) }",
+      -- Go: if pp.EventLTime > 0 { d.serf.eventClock.Witness(pp.EventLTime - 1) }
+      "if 0 < v0.EventLTime { recv.serf.eventClock.Witness(v0.EventLTime - 1) }",
+      -- Go: if pp.QueryLTime > 0 { d.serf.queryClock.Witness(pp.QueryLTime - 1) }
+      "if 0 < v0.QueryLTime { recv.serf.queryClock.Witness(v0.QueryLTime - 1) }"] := ⟨rfl, rfl, rfl, rfl⟩
 
 /-- the model's claim time uses exactly the generated offset -/
 theorem gen_merge_claim_offset (st : List (Name × Nat)) (x : Name) :
@@ -497,7 +638,7 @@ theorem gen_mergeLefts_uses_offset (n : Node) (st : List (Name × Nat)) (wall : 
 /-- the status loop of the model: names on the left list are skipped, the others become join intents -/
 theorem gen_mergeJoins_skips_left (n : Node) (left : List Name) (wall : Nat) (x : Name) (t : Nat)
     (rest : List (Name × Nat)) :
-    mergeJoinLoopStmts[1]? = some "if _, ok := leftMap[name]; ok { continue }" ∧
+    mergeJoinLoopStmts[1]? = some "if _, v8 := v2[v6]; v8 { continue }" ∧
     (x ∈ left → mergeJoins n left wall ((x, t) :: rest) = mergeJoins n left wall rest) ∧
     (x ∉ left → mergeJoins n left wall ((x, t) :: rest) = mergeJoins (handleJoinIntent n x t wall).1 left wall rest) := by
   refine ⟨rfl, ?_, ?_⟩ <;> intro h <;> simp [mergeJoins, h]
@@ -521,9 +662,12 @@ theorem gen_merge_offset_decisive :
     statusOf (handleLeaveIntent demoFailed "b" ((1 + 0) % two64) false 0).1 "b" = some .failed := by decide
 
 theorem gen_notify_shape :
-    notifyRebroadcastGuard = "rebroadcast" ∧ notifyRebroadcastInit = "rebroadcast := false" ∧
-    notifyLeaveHandler = "rebroadcast = d.serf.handleNodeLeaveIntent(&leave)" ∧
-    notifyJoinHandler = "rebroadcast = d.serf.handleNodeJoinIntent(&join)" ∧
+    -- Go (NotifyMsg): rebroadcast := false … if rebroadcast { …QueueBroadcast… }   [rebroadcast=v0 rebroadcastQueue=v1 t=v2 leave=v3 err=v4 join=v5]
+    notifyRebroadcastGuard = "v0" ∧ notifyRebroadcastInit = "v0 := false" ∧
+    -- Go: rebroadcast = d.serf.handleNodeLeaveIntent(&leave)
+    notifyLeaveHandler = "v0 = recv.serf.handleNodeLeaveIntent(&v3)" ∧
+    -- Go: rebroadcast = d.serf.handleNodeJoinIntent(&join)
+    notifyJoinHandler = "v0 = recv.serf.handleNodeJoinIntent(&v5)" ∧
     notifyHandlersAssignGuard = true := ⟨rfl, rfl, rfl, rfl, rfl⟩
 
 /-- NotifyMsg re-queues the message iff the handler returned true: the model's `rebroadcasts`
